@@ -25,7 +25,8 @@ func init() {
 				"name equal the request's.",
 			NotCovered: "the up/down state machine over all fault sequences and the timing of the backoff (run-time quantities).",
 			Rules: map[string]string{"C17-R1": "ServeDNS fail-over table", "C17-R2": "who replaces the active set, under which lock and gate",
-				"C17-R3": "health probe state table", "C17-R4": "reply validation tables"},
+				"C17-R3": "health probe state table", "C17-R5": "configuration wiring: main servers, fallback servers and health-check settings of the configuration reach the handler's fields of the same meaning",
+				"C17-R4": "reply validation tables"},
 		}})
 }
 
@@ -395,6 +396,11 @@ func runC17(c *an.Ctx) {
 		},
 	})
 
+	// the configured main and fallback servers reach the handler as such
+	c.Floor("C17-R5", 2)
+	checkFieldMap(c, "C17-R5", "cmd.(*upstreamConfig).toInternal", "dnsserver/forward.HandlerConfig", map[string]string{
+		"UpstreamsAddresses": ".Servers", "FallbackAddresses": ".Fallback.Servers",
+		"HealthcheckBackoffDuration": ".Healthcheck.BackoffDuration.Duration", "HealthcheckDomainTmpl": ".Healthcheck.DomainTmpl"})
 	// one retry on a stale pooled connection, on a connection created for it
 	decide(c, "C17-R4", fw+"(*UpstreamPlain).exchangeNet", an.DecideCfg{
 		Dom: an.Domain{"p3": an.Strs(netTCP, netUDP), "packerr": an.Bools, "geterr": an.Bools, "proc1": an.Strs("ok", "stale", "other"),
@@ -574,7 +580,7 @@ func runC17(c *an.Ctx) {
 	})
 	// UDP first; TCP only when the UDP exchange asks for it
 	decide(c, "C17-R4", fw+"(*UpstreamPlain).Exchange", an.DecideCfg{
-		Dom:    an.Domain{"(p0.timeout > 0)": an.Bools, "fb": an.Bools},
+		Dom:    an.Domain{"(0 < p0.timeout)": an.Bools, "fb": an.Bools},
 		Inline: func(f *ssa.Function) bool { return strings.HasPrefix(an.FnKey(f), fw+"(*UpstreamPlain).Exchange$") },
 		OnCall: func(it *an.Interp, name string, args []an.AV) (an.AV, bool) {
 			switch {
@@ -601,6 +607,26 @@ func runC17(c *an.Ctx) {
 			}
 			if tcp != f.B("fb") {
 				return fmt.Sprintf("a TCP exchange exactly when the UDP exchange asks for the fallback (%v)", f.B("fb"))
+			}
+			// the per-upstream timeout bounds every exchange, whatever deadline the caller's context has:
+			// the fallback is tried with what is left of the caller's deadline
+			wantCtx := "p1"
+			if f.B("(0 < p0.timeout)") {
+				wantCtx = "nonnil:ctx2"
+				ok := false
+				for _, e := range o.Effects {
+					if e.Kind == "call" && e.Name == "context.WithTimeout" && strings.Join(e.Args, ",") == "p1,p0.timeout" {
+						ok = true
+					}
+				}
+				if !ok {
+					return "the exchange bounded by the upstream's own timeout (context.WithTimeout(ctx, u.timeout)) whenever one is configured"
+				}
+			}
+			for _, e := range o.Effects {
+				if e.Kind == "call" && (strings.HasSuffix(e.Name, ").exchangeUDP") || strings.HasSuffix(e.Name, ").exchangeNet")) && e.Args[1] != wantCtx {
+					return "the exchange made with the bounded context (" + wantCtx + "); got " + e.Args[1]
+				}
 			}
 			want := "udpresp, " + fmt.Sprintf("%q", netUDP) + ", udperr"
 			if f.B("fb") {
